@@ -13,6 +13,7 @@ CONSTANTS
  LyingSizes = FALSE
  InlineData = FALSE
  Conc = 3
+ Probes = FALSE
 INIT Init
 NEXT Next
 VIEW View
